@@ -813,6 +813,8 @@ package service
 //@   acquires-level 10
 //@   requires sl != nil && sl.closeCh != nil
 //@   ensures[C12,closed-handle-refuses] old(closed(sl.closeCh)) ==> result.1 != nil && result.0 == nil
+//@   trace[C11,C12,C18,a-connection-taken-from-the-shared-channel-is-returned] each recv[acceptCh] satisfies !closed(acceptCh) ==> result.0 == $res0.conn && result.1 == $res0.err
+//@   trace[C12,one-take-per-call] atmost 1 recv
 
 //@ func (*virtualStreamListener).Close
 //@   props C12 C13 C18 C19
@@ -894,7 +896,7 @@ package service
 //@   acquires-level 0
 //@   requires pc != nil && readCh != nil && doneCh != nil
 //@   trace[C12,one-answer-per-datagram] loop 1 atmost 1 send
-//@   trace[C11,C12,request-taken-only-with-a-datagram-in-hand] loop 1 before net.PacketConn.ReadFrom recv
+//@   trace[C10,C11,C12,request-taken-only-with-a-datagram-in-hand] loop 1 before net.PacketConn.ReadFrom recv
 //@   trace[C12,one-socket-read-per-iteration] loop 1 exactly 1 net.PacketConn.ReadFrom
 //@   trace[C12,datagram-answered-to-the-requester] loop 1 each send satisfies $arg0.addr == evres("net.PacketConn.ReadFrom", 1) && $arg0.err == evres("net.PacketConn.ReadFrom", 2)
 //@   trace[C12,datagram-copied-once] loop 1 atmost 1 copy
